@@ -22,6 +22,17 @@ def main():
     seed = int(os.environ.get("VERIF_SEED", "1") or 1)
     tier = a.tier if a.tier in ("quick", "thorough") else "quick"
     prop = a.prop.upper()
+    if a.replay and a.replay.endswith(".json"):
+        # a replay file written by core.finish: re-run the same scripts (same seed and tier); engines that
+        # write richer replay files (ndjson scripts) read ctx.replay themselves
+        try:
+            import json
+            r = json.load(open(a.replay))
+            seed = int(r.get("seed", seed))
+            tier = r.get("tier", tier)
+            print("replaying %s: seed=%d tier=%s signature=%s" % (a.replay, seed, tier, json.dumps(r.get("signature"))))
+        except Exception as e:
+            print("could not read replay file: %s" % e)
     ctx = core.Ctx(prop, tier, seed)
     ctx.replay = a.replay
     try:
